@@ -443,3 +443,54 @@ Definition is_lookup (a : api) : bool :=
 
 (* a script written with API calls *)
 Definition api_submit (a : api) : op := OSubmit (api_kind a).
+
+(* ------------------------------------------------------------------ *)
+(* The completion wrappers the pool calls as w->done(w, status) (threadpool.c uv__queue_done
+   l.356-366, random.c uv__random_done, unix/fs.c uv__fs_done, unix/getaddrinfo.c
+   uv__getaddrinfo_done, unix/getnameinfo.c uv__getnameinfo_done) and the one field of the
+   request they read: req->status / req->result / req->retcode.  [garbage] is what the caller's
+   request memory held before the call. *)
+Inductive capi := CWork (has_cb : bool) | CRandom | CFs | CGetaddrinfo | CGetnameinfo.
+Inductive fate := FRun | FCancelled | FBusy.
+Definition UV_EAI_CANCELED : Z := (-3003)%Z.
+
+(* the submitting function initialises the field (uv_random: req->status = 0; fs INIT:
+   req->result = 0; uv_getaddrinfo / uv_getnameinfo: req->retcode = 0); uv_work_t has none *)
+Definition submit_field (a : capi) (garbage : Z) : Z :=
+  match a with CWork _ => garbage | _ => 0%Z end.
+(* the work function stores its own result there *)
+Definition work_field (a : capi) (wres field : Z) : Z :=
+  match a with CWork _ => field | _ => wres end.
+
+(* (number of uv__req_unregister calls, status the user callback sees - None: no callback) *)
+Definition done_wrapper (a : capi) (pool_status field : Z) : nat * option Z :=
+  match a with
+  | CWork has_cb => (1, if has_cb then Some pool_status else None)     (* unregister, then the NULL test *)
+  | CRandom => (1, Some (if Z.eqb pool_status 0 then field else pool_status))
+  | CFs => (1, Some (if Z.eqb pool_status UV_ECANCELED then UV_ECANCELED else field))
+  | CGetaddrinfo | CGetnameinfo =>
+      (1, Some (if Z.eqb pool_status UV_ECANCELED then UV_EAI_CANCELED else field))
+  end.
+
+(* the pool hands UV_ECANCELED to a cancelled request, whose work function never ran, and 0
+   otherwise (C08_done_exactly_once_on_loop_after_work) *)
+Definition complete_api (a : capi) (garbage wres : Z) (f : fate) : nat * option Z :=
+  let f0 := submit_field a garbage in
+  match f with
+  | FCancelled => done_wrapper a UV_ECANCELED f0
+  | _ => done_wrapper a 0%Z (work_field a wres f0)
+  end.
+
+Definition cancel_code (a : capi) : Z :=
+  match a with CGetaddrinfo | CGetnameinfo => UV_EAI_CANCELED | _ => UV_ECANCELED end.
+
+(* ------------------------------------------------------------------ *)
+(* fork(): the child re-runs init_threads (through pthread_atfork/reset_once and the next
+   uv__work_submit): cond, mutex, the three queues and the threads are fresh, no request of the
+   parent is inherited - but the static counters idle_threads and slow_io_work_running are not
+   re-initialised (threadpool.c l.194-242): the child starts with the parent's values.
+   [fork_child_fixed] is the state with the counters reset. *)
+Definition fork_child (c : config) (parent : state) (progs : list (list op)) : state :=
+  set_idle (set_running (init c progs) (running parent)) (idle parent).
+Definition fork_child_fixed (c : config) (parent : state) (progs : list (list op)) : state :=
+  init c progs.
